@@ -16,7 +16,8 @@ import procscn
 
 THEOREMS = ["Grc.MainSM.exitOf_zero_iff", "Grc.MainSM.exit_zero_iff_no_error", "Grc.MainSM.exit_le_one",
             "Grc.MainSM.success_font_complete", "Grc.MainSM.failure_leaves_no_font",
-            "Grc.MainSM.no_output_before_checks", "Grc.MainSM.errors_reach_errfile"]
+            "Grc.MainSM.no_output_before_checks", "Grc.MainSM.errors_reach_errfile",
+            "Grc.MainSM.fsm_failure_touches_nothing"]
 WR = {"createTmp", "execPP", "unlinkTmp", "writeDebugFiles", "writeDebugXml", "truncOut", "removeOut", "writeErrFile"}
 
 
